@@ -57,6 +57,11 @@ func ruleMustCall(c *Ctx, r *Report, clause string, fnKey string, callee string,
 		return
 	}
 	sites, v := c.W.mustPassCall(fi.SSA, nameIs(callee), callee)
+	if v != "" && c.W.absorbedInto(callee, fi) {
+		// the helper is gone and everything it mentioned is now written in fnKey itself
+		v = ""
+		desc += " (the helper was inlined: its body is part of " + fnKey + " now)"
+	}
 	r.add(clause, "mustcall", fnKey+"->"+callee+"(any)", desc, []string{fnKey, callee}, append(sites, c.W.pos(fi.Decl.Pos())), v)
 }
 
